@@ -38,6 +38,7 @@ func (d *Encoder) Reset() {
 	d.stack = d.stack[0:0]
 	d.current = phase_anyExpectValue
 	d.some = false
+	d.wr.err = nil // a write failure belongs to the item it interrupted, not to the next one
 }
 
 /*
